@@ -5,6 +5,7 @@ import io
 import os
 import random
 import shutil
+import signal
 import sys
 import tempfile
 import time as _real_time_module
@@ -136,13 +137,44 @@ def execute(scen, res, log):
     dev = dfudev.SimDfuSe(scen, clock, log, init, res, step_budget(scen))
     dfudev.set_device(dev)
     _ensure_tmpdir()
-    path = os.path.join(_tmpdir, 'fw-%d.bin' % os.getpid())
-    with open(path, 'wb') as f:
-        f.write(fw)
+    knobs = scen.get('knobs', {})
+    rundir = os.path.join(_tmpdir, 'run-%d' % os.getpid())
+    os.makedirs(rundir, exist_ok=True)
+    fname = knobs.get('fwname') or 'fw.bin'
+    path = os.path.join(rundir, fname)
+    writer = None
+    if knobs.get('fifo'):
+        # the image arrives through a named pipe: its size is only known once it has been read
+        os.mkfifo(path)
+        writer = os.fork()
+        if writer == 0:
+            try:
+                signal.alarm(20)
+                fd = os.open(path, os.O_WRONLY)
+                view = memoryview(fw)
+                while view:
+                    n = os.write(fd, view[:65536])
+                    view = view[n:]
+                os.close(fd)
+            except BaseException:
+                pass
+            finally:
+                os._exit(0)
+    else:
+        with open(path, 'wb') as f:
+            f.write(fw)
 
     saved_argv = sys.argv
     saved_dfu_time = dfu.__dict__.get('time')
-    sys.argv = ['bronzebeard-dfu', scen.get('device_id', '28e9:0189'), path]
+    saved_cwd = os.getcwd()
+    saved_stdin = sys.stdin
+    saved_platform = sys.platform
+    os.chdir(rundir)
+    sys.stdin = io.TextIOWrapper(io.BytesIO(b''))          # a tool that reads '-' as stdin finds it empty
+    if knobs.get('platform'):
+        sys.platform = knobs['platform']
+    arg = fname if knobs.get('relname') else path
+    sys.argv = ['bronzebeard-dfu', scen.get('device_id', '28e9:0189'), arg]
     dfu.time = clock
     for name in _real_time_attrs:
         setattr(_real_time_module, name, getattr(clock, name))
@@ -169,11 +201,26 @@ def execute(scen, res, log):
         if saved_dfu_time is not None:
             dfu.time = saved_dfu_time
         sys.argv = saved_argv
+        sys.stdin = saved_stdin
+        sys.platform = saved_platform
+        os.chdir(saved_cwd)
         dfudev.set_device(None)
-        try:
-            os.unlink(path)
-        except OSError:
-            pass
+        if writer:
+            try:
+                # nobody may have opened the pipe (refused earlier): unblock and reap the writer
+                fd = os.open(path, os.O_RDONLY | os.O_NONBLOCK)
+                os.close(fd)
+            except OSError:
+                pass
+            try:
+                os.kill(writer, 9)
+            except OSError:
+                pass
+            try:
+                os.waitpid(writer, 0)
+            except OSError:
+                pass
+        shutil.rmtree(rundir, ignore_errors=True)
     clock.flush()
     log.add('end', outcome, detail[:120])
     return {'outcome': outcome, 'detail': detail, 'stdout': out.getvalue(), 'stderr': err.getvalue(),
@@ -364,3 +411,7 @@ def shrink_common(scen):
         yield variant_of(scen, device_id='28e9:0189')
     if scen.get('knobs'):
         yield variant_of(scen, knobs={})
+        for k in list(scen['knobs']):
+            c = copy.deepcopy(scen)
+            del c['knobs'][k]
+            yield c
